@@ -118,6 +118,52 @@ def call_unary(x, f, opt=""):
     return a(**OPT_KW[opt]) if callable(a) else a
 
 
+def build_call(e):
+    """the call of a Dispatch case: (full, one, operands) - full() evaluates it on the multi-valued operands, one(i, j)
+    on the single-valued picks; operands: every object the call receives (receiver, right operand, keyword objects)"""
+    op, L, R = e["op"], e["l"], e["r"]
+    lc, m, rc, n = L["c"], L["n"], R["c"], R["n"]
+    opt = R.get("opt", "")
+    if op in OPS:
+        a = inject(lc, left_ids(m))
+        if rc in elems.SPEC:
+            b = inject(rc, right_ids(op, n))
+            bs = [inject(rc, [k]) for k in right_ids(op, n)]
+        else:
+            b = foreign(rc, lc)
+            bs = [b]
+        as_ = [inject(lc, [k]) for k in left_ids(m)]
+        full = lambda: OPS[op](a, b)                                    # noqa: E731
+        one = lambda i, jx: OPS[op](as_[i - 1], bs[jx - 1])             # noqa: E731
+        operands = [a, b]
+    elif op == "interp":
+        x = inject(lc, [7])
+        svec = [0.1 + 0.2 * i for i in range(n)]
+        kw = {}
+        if "start" in opt:
+            kw["start"] = inject(lc, [90])
+        if "dest" in opt:
+            # a destination in the opposite hemisphere (negative inner product): the arc then
+            # depends on `shortest`
+            far = inject(lc, [200])
+            far.data[0] = -far.data[0]
+            kw["dest"] = far
+        if "shortest" in opt:
+            kw["shortest"] = True
+            if "dest" not in opt:
+                x.data[0] = -x.data[0]
+        full = lambda: x.interp(svec, **kw)                             # noqa: E731
+        one = lambda i, jx: x.interp(svec[jx - 1], **kw)                # noqa: E731
+        operands = [x, svec] + [v for v in kw.values() if not isinstance(v, bool)]
+    else:
+        x = inject(lc, left_ids(m))
+        xs = [inject(lc, [k]) for k in left_ids(m)]
+        full = lambda: call_unary(x, op, opt)                           # noqa: E731
+        one = lambda i, jx: call_unary(xs[i - 1], op, opt)              # noqa: E731
+        operands = [x]
+    return full, one, operands
+
+
 def run_case(j, e):
     op, L, R, out = e["op"], e["l"], e["r"], e["out"]
     doc = out["doc"]
@@ -138,40 +184,7 @@ def run_case(j, e):
         return
     # ---- build the call
     detail = {"op": op, "l": L, "r": R, "expected": out}
-    if op in OPS:
-        a = inject(lc, left_ids(m))
-        if rc in elems.SPEC:
-            b = inject(rc, right_ids(op, n))
-            bs = [inject(rc, [k]) for k in right_ids(op, n)]
-        else:
-            b = foreign(rc, lc)
-            bs = [b]
-        as_ = [inject(lc, [k]) for k in left_ids(m)]
-        full = lambda: OPS[op](a, b)                                    # noqa: E731
-        one = lambda i, jx: OPS[op](as_[i - 1], bs[jx - 1])             # noqa: E731
-    elif op == "interp":
-        x = inject(lc, [7])
-        svec = [0.1 + 0.2 * i for i in range(n)]
-        kw = {}
-        if "start" in opt:
-            kw["start"] = inject(lc, [90])
-        if "dest" in opt:
-            # a destination in the opposite hemisphere (negative inner product): the arc then
-            # depends on `shortest`
-            far = inject(lc, [200])
-            far.data[0] = -far.data[0]
-            kw["dest"] = far
-        if "shortest" in opt:
-            kw["shortest"] = True
-            if "dest" not in opt:
-                x.data[0] = -x.data[0]
-        full = lambda: x.interp(svec, **kw)                             # noqa: E731
-        one = lambda i, jx: x.interp(svec[jx - 1], **kw)                # noqa: E731
-    else:
-        x = inject(lc, left_ids(m))
-        xs = [inject(lc, [k]) for k in left_ids(m)]
-        full = lambda: call_unary(x, op, opt)                           # noqa: E731
-        one = lambda i, jx: call_unary(xs[i - 1], op, opt)              # noqa: E731
+    full, one, _operands = build_call(e)
     # ---- length mismatch must raise ValueError
     if doc["k"] == "raise":
         ok, r = single(full)
